@@ -639,6 +639,14 @@ class Interp:
         b = self.ctx.builtin_name(name)
         if b is not None:
             return b
+        if frame.module is not None:
+            # `from external.module import *`: a name the sidecar declares as an extern of exactly that module
+            for dotted in getattr(frame.module, 'star_imports', []):
+                if self.repo.module_by_dotted(dotted) is None:
+                    cand = dotted + '.' + name
+                    R = self.ctx.registry
+                    if cand in R.externs or ('<ext>', cand) in R.contracts:
+                        return self.static_value(('ext', cand), frame, node)
         raise Unsupported('unbound name %s' % name, node)
 
     def static_value(self, r, frame, node=None):
@@ -1724,6 +1732,21 @@ class Interp:
             if self.branch(b):
                 self.st.trace[-1].raised = True
                 raise PyExc(VExc('opaque:' + name, origin=name))
+        if decl.get('assume'):
+            # extern(..., assume="helper", reason="..."): an ASSUMED fact about what the external callee returns - the sidecar helper
+            # applied to the result; listed with its reason among the unchecked assumptions of every run that uses it
+            hname = decl['assume']
+            R = self.ctx.registry
+            if hname not in R.helpers:
+                raise Unsupported('extern %s: assume=%r is not a helper of the sidecar' % (name, hname), node)
+            hnode, hsc = R.helpers[hname]
+            self.pure += 1
+            try:
+                v = self.call_closure(VClosure(hnode, None, Frame({}, None, sidecar=hsc)), [res], {}, node)
+            finally:
+                self.pure -= 1
+            self.assume(self.truthy(v))
+            self.ctx.assumptions.add('assumed about the external callee %s: %s(result) - %s' % (name, hname, decl.get('reason', 'no reason given')))
         return res
 
     def havoc_ref(self, ref, hint=None):
